@@ -137,6 +137,10 @@ func RuleSpecs(thorough bool) ([]*spec.Spec, map[string][]RuleCase) {
 		s("rule=pattern,bound=digits5", `pattern:"^[0-9]{5}$"`)
 		s("rule=pattern,bound=unanchored", `pattern:"ab+c"`)
 		s("rule=pattern,bound=alnum", `pattern:"^[a-z][a-z0-9_]*$"`)
+		// characters a publisher might escape or re-escape: bare and already-escaped slashes, escaped dots, a literal backslash
+		s("rule=pattern,bound=bare_slash", `pattern:"^[0-9]+/[0-9]+$"`)
+		s("rule=pattern,bound=escaped_slash", `pattern:"^https?:\\/\\/[a-z.]+$"`)
+		s("rule=pattern,bound=escaped_dot", `pattern:"^v[0-9]+\\.[0-9]+$"`)
 		for _, wk := range []string{"email", "uuid", "uri", "hostname", "ipv4", "ipv6", "ip"} {
 			s("rule=format,bound="+wk, wk+":true")
 		}
